@@ -52,6 +52,8 @@ class Ctx:
         self.pathcond = []
         self.notes = []
         self.sqrt_cache = {}
+        self.sqrt_vars = {}   # id of sqrt variable -> radicand
+        self.recips = {}
         self.models = []  # model cache (concolic): models of the current path condition
         self.labels = []
         self.user = {}
@@ -167,7 +169,20 @@ class Ctx:
         self.fact([v >= 0, v * v == e])
         r = Sym(v)
         self.sqrt_cache[key] = r
+        self.sqrt_vars[v.get_id()] = e
         return r
+
+    def recip_of(self, den):
+        """division by a square-root variable n (known non-zero on this path) is multiplication by
+        a reciprocal variable t with t·n = 1, t > 0, t²·radicand = 1: keeps the terms polynomial"""
+        k = den.get_id()
+        if k not in self.sqrt_vars:
+            return None
+        if k not in self.recips:
+            t = self.fresh("rsqrt")
+            self.fact([t > 0, t * den == 1, t * t * self.sqrt_vars[k] == 1])
+            self.recips[k] = t
+        return self.recips[k]
 
     # -- obligations ----------------------------------------------------------------------
     def prove(self, name, claim, timeout_ms=None):
